@@ -136,7 +136,7 @@ class BlackbirdErrorListener(antlr4.error.ErrorListener.ErrorListener):
         # iterate up through the tree, and determine if we are in an array declaration
         parent_ctx = ctx
         while parent_ctx:
-            parent_ctx = dict(parent_ctx.__dict__.items())["parentCtx"]
+            parent_ctx = parent_ctx.parentCtx
 
             if isinstance(parent_ctx, blackbirdParser.ArrayvarContext):
                 # if we are in an array declaration, inform the user which variable
